@@ -21,6 +21,30 @@ def inactive_slot(m, ubin):
     if m not in SDK_USER2: return None
     return SDK_USER2[m] if ubin == 0 else SDK_USER1      # userbin 0 = user1 is running
 
+# size of a firmware slot: the slot stride of the flash map (512 KB / 1024 KB) minus the 4 KB boot sector in front of user1
+# and the 16 KB system-parameter area at the end of the (first) flash half that the slot shares
+SDK_SLOT_SIZE = {2: 512 * 1024 - 20 * 1024, 3: 512 * 1024 - 20 * 1024, 4: 512 * 1024 - 20 * 1024,
+                 5: 1024 * 1024 - 20 * 1024, 6: 1024 * 1024 - 20 * 1024}
+
+def fill_bytes(n, seed):
+    """expansion of SEGFILL n seed (same as harness/drv/c18.c and Model.segfill)"""
+    n = min(n, 65535); x = seed & 255; hi0 = (seed >> 8) & 255
+    xs = bytearray(256)
+    for i in range(256): xs[i] = x; x = (x * 5 + 113) & 255
+    out = bytearray()
+    for blk in range((n + 255) // 256):
+        h = (hi0 + blk) & 255
+        out += bytes((v + h) & 255 for v in xs)
+    return bytes(out[:n])
+
+def seg_bytes(ev):
+    k, ints, data = ev
+    if k == 'SEGFILL': return fill_bytes(ints[0], ints[1]) if len(ints) >= 2 else b''
+    return bytes(data)
+
+MARK = ' [after the restart request]'
+HALTING = ('RESTART', 'UPGRADEREBOOT')
+
 def slot_limit(m):
     for row in consts()['LIMITS']:
         if row[0] == m: return row[1]
@@ -65,7 +89,8 @@ def split_stream(stream):
 
 class C18(F.PropCheck):
     pid = 'C18'; gen_groups = ['UpdateConsts']; prop_file = 'Properties_C18'
-    IN = {'MAP': 0, 'USERBIN': 1, 'ORACLE': 2, 'FAILS': 3, 'HEAP': 4, 'FLASHINIT': 5, 'START': 6, 'SEG': 7, 'DISC': 8, 'ARENA': 9}
+    IN = {'MAP': 0, 'USERBIN': 1, 'ORACLE': 2, 'FAILS': 3, 'HEAP': 4, 'FLASHINIT': 5, 'START': 6, 'SEG': 7, 'DISC': 8, 'ARENA': 9,
+          'SEGFILL': 10, 'NOHALT': 11}
     OUT = {0: 'BASE', 1: 'NOUPDATE', 2: 'FLAG', 3: 'ERASE', 4: 'WRITE', 5: 'VERIFY', 6: 'UPGRADEREBOOT', 7: 'RESTART', 8: 'FAULT'}
     quick_cases = 2500; thorough_cases = 30000
     trusted_extra = ['C18 driver harness/drv/c18.c + wrapper harness/wrap/c18_update_wrap.c: real supla_update.c driven through '
@@ -169,9 +194,68 @@ class C18(F.PropCheck):
             if p: out.append(p)
         return out
 
-    def gen_cases(self, rng, n, tier):
+    def gen_stale(self, rng, cid):
+        """the spare slot already holds a correctly signed image of the same length (an earlier update); the download is
+        garbage / a tampered copy / the same image, and flash operations fail persistently"""
+        m = rng.choice([2, 3, 4, 5, 6]); ub = rng.choice([0, 1]); base = inactive_slot(m, ub)
+        n = rng.choice([rng.randrange(529, 4096), rng.randrange(4097, 20000), 8192, 12288 + rng.randrange(1, 4096)])
+        stale = make_image(rng, n); nsec = (n + 4095) // 4096; tags = ['stale-image', 'map%d' % m]
+        k = rng.randrange(nsec)                                  # the sector that cannot be programmed
+        w = rng.random()
+        if w < 0.35: dl = bytes(rng.getrandbits(8) for _ in range(n)); tags.append('dl:garbage')
+        elif w < 0.8:
+            i = min(n - 1, k * 4096 + rng.randrange(4096)); dl = stale[:i] + bytes([stale[i] ^ (1 << rng.randrange(8))]) + stale[i + 1:]; tags.append('dl:tampered')
+        else: dl = stale; tags.append('dl:same')
+        w = rng.random()
+        if w < 0.35: f = [1] * (5 * nsec + 10); tags.append('fail:all')
+        elif w < 0.75: f = [0] * (2 * k) + [1] * 5 + [0] * 4; tags.append('fail:erase-sector')
+        elif w < 0.9: f = [0] * (2 * k) + [0, 1] * 5; tags.append('fail:write-sector')
+        else: f = [0] * (2 * k) + [1] * 4; tags.append('fail:4')
+        evs = [('MAP', [m], b''), ('USERBIN', [ub], b''), oracle_ev(stale, 2 if rng.random() < 0.8 else 1),
+               ('FAILS', [], bytes(f)), ('FLASHINIT', [base], stale), ('START', [], b'')]
+        for sg in self.segmentations(rng, header(n), dl): evs.append(('SEG', [], sg))
+        evs.append(('DISC', [], b''))
+        return F.Case(cid, evs, tags)
+
+    def gen_nohalt(self, rng, cid):
+        """callbacks keep arriving after the restart / upgrade reboot was requested (system_restart() is asynchronous)"""
+        m = rng.choice([2, 3, 5, 6]); ub = rng.choice([0, 1])
+        n = rng.choice([rng.randrange(529, 4096), rng.randrange(4097, 24000), 8192 + 528, 20000])
+        img = make_image(rng, n); tags = ['nohalt', 'map%d' % m]; sent = img
+        w = rng.random()
+        if w < 0.5: tags.append('valid')
+        elif w < 0.75: i = rng.randrange(n - 528); sent = img[:i] + bytes([img[i] ^ 1]) + img[i + 1:]; tags.append('flip:body')
+        else: sent = img[:-16] + bytes(16); tags.append('nofooter')
+        evs = [('MAP', [m], b''), ('USERBIN', [ub], b''), oracle_ev(img), ('NOHALT', [], b''), ('START', [], b'')]
+        for sg in self.segmentations(rng, header(n), sent): evs.append(('SEG', [], sg))
+        for _ in range(rng.randrange(1, 4)):
+            if rng.random() < 0.2: evs.append(('DISC', [], b''))
+            evs.append(('SEG', [], bytes(rng.getrandbits(8) for _ in range(rng.choice([1, 100, 1400, 5000])))))
+        if rng.random() < 0.7: evs.append(('DISC', [], b''))
+        return F.Case(cid, evs, tags)
+
+    def gen_big(self, tier):
+        """per flash map: announced length at the slot size (full body delivered), one above it, and 8 KB above it with a body
+        that crosses the end of the slot; SEGFILL keeps the cases small"""
         cases = []
+        for m in (2, 3, 4, 5, 6):
+            L = SDK_SLOT_SIZE[m]
+            for j, (cl, blen) in enumerate(((L, L), (L + 1, L + 1 + 4096), (L + 8192, L + 8192))):
+                ub = (m + j) & 1
+                evs = [('MAP', [m], b''), ('USERBIN', [ub], b''), ('ORACLE', [1, 0, 0, 0], b''), ('START', [], b''), ('SEG', [], header(cl))]
+                left = blen; sd = 256 * m + j
+                while left > 0:
+                    k = min(left, 65535); evs.append(('SEGFILL', [k, sd], b'')); left -= k; sd += 255
+                evs.append(('DISC', [], b''))
+                cases.append(F.Case('%sbig_m%d_%d' % (tier[0], m, j), evs, ['big', 'map%d' % m, ('at-limit', 'limit+1', 'crosses-slot-end')[j]]))
+        return cases
+
+    def gen_cases(self, rng, n, tier):
+        cases = self.gen_big(tier)
         for i in range(n):
+            r = rng.random()
+            if r < 0.04: cases.append(self.gen_stale(rng, '%sst%d' % (tier[0], i))); continue
+            if r < 0.07: cases.append(self.gen_nohalt(rng, '%snh%d' % (tier[0], i))); continue
             m = rng.choice([5, 5, 5, 6, 2, 2, 3, 4, rng.choice([0, 1, 7, 8, 9])]); ub = rng.choice([0, 0, 1, 1, rng.choice([2, 255])])
             pre, hdr, body, tags, img = self.gen_response(rng, m, tier)
             evs = [('MAP', [m], b''), ('USERBIN', [ub], b'')] + pre
@@ -205,13 +289,29 @@ class C18(F.PropCheck):
             if any(k == 'FAULT' for (k, _, _) in ml): return None
             return 'implementation crashed (%s); model: %d outputs, no fault' % (is_, len(ml))
         ml = [x for x in ml if x[0] != 'FAULT'] if any(k == 'FAULT' for (k, _, _) in ml) else ml
-        return F.PropCheck.compare(self, case, (ms, ml), io)
+        d = F.PropCheck.compare(self, case, (ms, ml), io)
+        if d and len(il) > len(ml) and il[:len(ml)] == ml and ml and ml[-1][0] in HALTING: d += MARK
+        return d
 
     def nontrivial(self, case, io):
         return any(k in ('FLAG', 'ERASE', 'WRITE') for (k, _, _) in io[1])
 
     # ---------------- monitor (implementation trace vs. the property text, no model involved)
     def monitor(self, case, status, outs):
+        """alarms of the whole trace; those that only appear after the first restart / upgrade-reboot request (possible only
+        when callbacks are still delivered after it, event NOHALT) are marked"""
+        full = self._judge(case, status, outs)
+        cut = next((i for i, (k, _, _) in enumerate(outs) if k in HALTING), None)
+        if cut is None or cut == len(outs) - 1 or not full: return full
+        first = set(self._judge(case, status, outs[:cut + 1]))
+        return [x if x in first else x + MARK for x in full]
+
+    def finding_key(self, case, what):
+        # class: the failing behaviour needs a callback delivered after supla_system_restart()/system_upgrade_reboot() returned
+        if MARK in what and any(k == 'NOHALT' for (k, _, _) in case.evs): return 'callback-after-restart-request'
+        return None
+
+    def _judge(self, case, status, outs):
         v = []
         m = 5; ub = 0; omode = 0; oargs = [0, 0, 0, 0]; seen_start = False; stream = b''; last_ev = None
         for (k, ints, data) in case.evs:
@@ -219,15 +319,17 @@ class C18(F.PropCheck):
             elif k == 'MAP' and not seen_start and ints: m = ints[0]
             elif k == 'USERBIN' and not seen_start and ints: ub = ints[0]
             elif k == 'START': seen_start = True
-            elif k == 'SEG' and seen_start and 0 < len(data) <= 65535: stream += data
-            if k in ('SEG', 'DISC', 'START'): last_ev = k
+            elif k in ('SEG', 'SEGFILL') and seen_start:
+                d = seg_bytes((k, ints, data))
+                if 0 < len(d) <= 65535: stream += d
+            if k in ('SEG', 'SEGFILL', 'DISC', 'START'): last_ev = 'SEG' if k == 'SEGFILL' else k
         base_line = [ints[0] for (k, ints, _) in outs if k == 'BASE']
         if not base_line:
             bad = [k for (k, _, _) in outs if k in ('ERASE', 'WRITE', 'FLAG', 'UPGRADEREBOOT')]
             if bad: v.append('flash/boot operations (%s) without an update slot' % bad[0])
             return v
         base = inactive_slot(m, 0 if (ub & 255) == 0 else 1)
-        lim = slot_limit(m)
+        lim = SDK_SLOT_SIZE.get(m)
         if base is None or lim is None: return v
         if base_line[0] != base:
             v.append('writes go to 0x%X but the inactive slot for map %d / running bin %d starts at 0x%X' % (base_line[0], m, ub, base)); return v
